@@ -242,6 +242,9 @@ func (p *Program) generate(j *Job) {
 			}
 		}
 	}
+	if rs.pc != False {
+		x.reachProbe(rs, "exit", "a return of the function is reachable under the assumptions (expected: sat)")
+	}
 	if c != nil && !c.Trusted {
 		fr.results = rv
 		for i, r := range x.evalClauses(fr, rs, c.clauses("ensures", 0), nil, "ensures") {
